@@ -1,6 +1,7 @@
 """C15 (assembly side): the one-time implementation selection is the library's only write to its own data, it is a
 single aligned 8-byte store whose value is a function of CPUID/XGETBV results only, and the resolver preserves every
 register — so concurrent first calls store the same value and cannot tear."""
+import os
 import time
 import z3
 from z3 import z3util
@@ -79,3 +80,62 @@ def purity_query(qid, params, ctx):
     except Unsupported as e:
         return {"status": ERROR, "detail": "outside encodable class: %s" % e}
     return {"status": HOLDS, "stats": stats, "solver_time_s": time.time() - t0, "witness_ok": stats["paths"] > 0}
+
+
+def writable_objects_query(qid, params, ctx):
+    """Structural side condition of C15 read from the freshly built library objects (ELF symbol tables and
+    disassembly; no solver involved): which objects does the library own in writable sections?
+      (1) no zero-initialised writable object (.bss / COMMON) exists at all - such an object can only be mutable state;
+      (2) no instruction of any C unit stores directly to an initialised writable object (.data symbol);
+      (3) assembly units' .data labels are constant pools: engine B shows in every kernel query that no store hits
+          image data (a store outside the caller-declared regions is a Violation), and the resolvers store only to
+          their dispatch cell (purity queries)."""
+    import re
+    import subprocess
+    from vlib.x86sym import libindex
+    t0 = time.time()
+    idx = libindex.build_index(ctx["repo"], ctx["scratch"])
+    bss, cdata, cells, asmdata = [], [], 0, 0
+    for obj, meta in idx["objects"].items():
+        o = subprocess.run(["nm", "--defined-only", obj], stdout=subprocess.PIPE).stdout.decode()
+        for l in o.splitlines():
+            f = l.split()
+            if len(f) != 3:
+                continue
+            if f[1] in "bBC":
+                bss.append("%s:%s" % (meta["src"], f[2]))
+            elif f[1] in "dD":
+                if f[2].endswith("_dispatched"):
+                    cells += 1
+                elif meta["kind"] == "c":
+                    cdata.append((obj, meta["src"], f[2]))
+                else:
+                    asmdata += 1
+    if bss:
+        return {"status": VIOLATED, "finding_key": "library-bss:" + ",".join(sorted(bss))[:120],
+                "detail": "the library owns zero-initialised writable object(s) %s: mutable global state (shared by all threads/contexts)" % bss[:6],
+                "cex": {"objects": bss}, "replay_ok": None}
+    stores = []
+    by_obj = {}
+    for obj, src, sym in cdata:
+        by_obj.setdefault(obj, []).append(sym)
+    for obj, syms in by_obj.items():
+        o = subprocess.run(["objdump", "-dr", "-M", "intel", obj], stdout=subprocess.PIPE).stdout.decode().splitlines()
+        for i, line in enumerate(o):
+            m = re.match(r"^\s*[0-9a-f]+:\s+R_X86_64_\w+\s+(\S+?)([-+]0x[0-9a-f]+)?$", line)
+            if not m or m.group(1) not in syms and m.group(1) != ".data":
+                continue
+            # the instruction the relocation belongs to is the closest preceding disassembly line
+            j = i - 1
+            while j >= 0 and not re.match(r"^\s*[0-9a-f]+:\t", o[j]):
+                j -= 1
+            ins = o[j].split("\t")[-1] if j >= 0 else ""
+            mm = re.match(r"^(\w+)\s+(.*)$", ins.strip())
+            if mm and mm.group(1) not in ("lea", "cmp", "test", "push", "call", "jmp") and re.match(r"^[A-Z]+ PTR \[rip", mm.group(2).split(",")[0].strip() if "," in mm.group(2) else ""):
+                stores.append("%s: %s" % (os.path.basename(obj), ins.strip()))
+    if stores:
+        return {"status": VIOLATED, "finding_key": "library-data-store", "detail": "C code stores directly to a library-owned initialised object: %s" % stores[:4],
+                "cex": {"stores": stores[:20]}, "replay_ok": None}
+    return {"status": HOLDS, "stats": {"variables": len(idx["objects"]), "clauses": len(cdata) + cells + asmdata, "paths": 1},
+            "solver_time_s": time.time() - t0, "witness_ok": cells > 0,
+            "inventory": {"dispatch_cells": cells, "c_initialised_tables": sorted(s for _, _, s in cdata), "asm_constant_pool_labels": asmdata, "bss_objects": 0}}
